@@ -310,6 +310,10 @@ func unmarshalObject(buf []byte, atys map[string]cty.Type, path cty.Path) (cty.V
 				return cty.NilVal, path.NewErrorf("failed to read object key: %s", err)
 			}
 
+			// Attribute names in object types are always normalized, so
+			// we must normalize the property name before looking it up.
+			k = cty.NormalizeString(k)
+
 			aty, ok := atys[k]
 			if !ok {
 				return cty.NilVal, objPath.NewErrorf("unsupported attribute %q", k)
